@@ -235,6 +235,35 @@ def sym_hex(x):
     return builtins.hex(x)
 
 
+class SBinStr(object):
+    """the text bin(x) of a symbolic integer: only the population count is modelled (bin(x).count('1'))"""
+
+    def __init__(self, x):
+        self.x = x
+
+    def count(self, ch, *rest):
+        if ch != '1' or rest:
+            raise PathAbort("bin(sym).count(%r)" % (ch,))
+        x = self.x
+        x.need_exact('bin')
+        mag = z3.If(x.t < 0, -x.t, x.t)             # bin() prints the magnitude after an optional '-'
+        W = Ctx.W
+        tot = bvv(0)
+        for i in range(W):
+            tot = tot + z3.ZeroExt(W - 1, z3.Extract(i, i, mag))
+        hi = max(abs(x.lo), abs(x.hi)).bit_length()
+        return mk(tot, 0, hi)
+
+    def __getattr__(self, name):
+        raise PathAbort('bin(sym).%s' % name)
+
+
+def sym_bin(x):
+    if isinstance(x, SInt):
+        return SBinStr(x)
+    return builtins.bin(x)
+
+
 def sym_abs(x):
     return builtins.abs(x)
 
@@ -485,6 +514,7 @@ SHIMS = {
     '__sym_hash__': sym_hash,
     '__sym_hash_inner__': sym_hash_inner,
     '__sym_hex__': sym_hex,
+    '__sym_bin__': sym_bin,
     '__sym_getitem__': sym_getitem,
     '__sym_mod__': sym_mod,
     '__sym_struct__': SymStruct,
@@ -496,7 +526,7 @@ SHIMS = {
 # AST pass + import hook
 # ---------------------------------------------------------------------------------------------
 _CALLS = {'int': '__sym_int__', 'long': '__sym_int__', 'type': '__sym_type__', 'ord': '__sym_ord__',
-          'hash': '__sym_hash__', 'hex': '__sym_hex__', 'isinstance': '__sym_isinstance__',
+          'hash': '__sym_hash__', 'hex': '__sym_hex__', 'bin': '__sym_bin__', 'isinstance': '__sym_isinstance__',
           'range': '__sym_range__'}
 
 
